@@ -4,6 +4,7 @@ import (
 	"bufio"
 	"encoding/json"
 	"fmt"
+	"math"
 	"os"
 	"reflect"
 	"regexp"
@@ -25,6 +26,7 @@ type c14case struct {
 	Ast   *AST   `json:"ast,omitempty"`   // eq
 	Elem  *Abs   `json:"elem,omitempty"`  // eq: the element the script is matched against
 	Wrap  int    `json:"wrap,omitempty"`  // eq: 1 = the tree of interest is ast.l (an arithmetic tree compared with a constant)
+	Pair  bool   `json:"pair,omitempty"`  // path: evaluate on the document of the rune-class pair keys
 	Alt   bool   `json:"alt,omitempty"`   // txt: write the regex operator in its other spelling (~=)
 	Items []Item `json:"items,omitempty"` // txt: the script text as items (the TLA+ side derives the intended tree from them)
 }
@@ -207,6 +209,33 @@ func c14doc() any {
 	return doc
 }
 
+// every 'special' rune class of the printer (AppendString) and the keys that put each class directly before each other one
+var runeClasses = []struct{ n, s string }{{"u2028", "\u2028"}, {"u2029", "\u2029"}, {"badutf8", "\xff"}, {"ctl", "\x01"}, {"del", "\x7f"},
+	{"quote", "'"}, {"dquote", "\""}, {"backslash", "\\"}, {"utf2", "é"}, {"utf3", "€"}, {"utf4", "😀"}}
+
+type pairKey struct{ cell, key string }
+
+func pairKeys() []pairKey {
+	var out []pairKey
+	for _, x := range runeClasses {
+		for _, y := range runeClasses {
+			p := x.s + y.s
+			for _, v := range []struct{ pos, key string }{{"whole", p}, {"middle", "a" + p + "b"}, {"start", p + "b"}, {"end", "a" + p}} {
+				out = append(out, pairKey{"pair(" + x.n + "," + y.n + ") " + v.pos, v.key})
+			}
+		}
+	}
+	return out
+}
+
+func pairDoc() any {
+	doc := map[string]any{"a": int64(1)}
+	for i, pk := range pairKeys() {
+		doc[pk.key] = int64(100 + i)
+	}
+	return doc
+}
+
 func canon(vs []any) []string {
 	out := make([]string, len(vs))
 	for i, v := range vs {
@@ -266,6 +295,9 @@ func runC14(c *c14case) []*c14event {
 		}
 		x = appendFrags(x, c.Fr)
 		doc := c14doc()
+		if c.Pair {
+			doc = pairDoc()
+		}
 		for _, form := range []string{"Expr.String", "Expr.BracketString"} {
 			ev := mk(form)
 			s1, perr := safeStr(func() string {
@@ -469,6 +501,18 @@ func genC14(tier string, n int, seed int64) {
 			}
 		}
 	}
+	// ---- every special rune class directly followed by every other (both orders) at the start, in the middle, at the end
+	// and as the whole key: child keys, union members (String and BracketString) and string constants in scripts
+	for _, pk := range pairKeys() {
+		emit(&c14case{K: "path", Pair: true, Cell: "child " + pk.cell, Root: "$", Fr: []Frag{{F: "child", K: ints(pk.key)}}})
+		emit(&c14case{K: "path", Pair: true, Cell: "union " + pk.cell, Root: "$", Fr: []Frag{{F: "union", U: []UItem{{Is: true, K: ints("a")}, {Is: true, K: ints(pk.key)}}}}})
+		sa := absOf(pk.key)
+		cell := "const(str " + pk.cell + ")"
+		if strings.Contains(pk.key, "\xff") {
+			cell = "const(str badutf8 " + pk.cell + ")"
+		}
+		emit(&c14case{K: "eq", Cell: cell, Ast: &AST{Op: "==", L: pth("@"), R: &AST{Op: "const", V: sa}}, Elem: sa})
+	}
 	// ---- equations: every (parent op, child op, side) triple
 	ops := []string{"*", "/", "+", "-", "<", ">=", "==", "!=", "&&", "||", "in", "has", "=~"}
 	isLogic := func(o string) bool { return o == "&&" || o == "||" || o == "!" }
@@ -515,7 +559,9 @@ func genC14(tier string, n int, seed int64) {
 		}
 	}
 	// ---- constants of every kind, compared with the element itself
-	consts := []any{nil, true, false, int64(0), int64(-7), int64(1234567), 1.5, 2.0, -0.25, 1e21, 1e-7, 0.1234567, 1234567.25, "", "a", "a'b", "a\"b", "a\\b", "a\nb", "a\tb", "a\rb", "a\fb", "a\bb", "a\x01b", "é", "a b", "a/b",
+	consts := []any{nil, true, false, int64(0), int64(-7), int64(1234567), 1.5, 2.0, -0.25, 1e21, 1e-7, 0.1234567, 1234567.25,
+		// floats by magnitude / shape: integral below 1e6, up to 2^53, 2^63, beyond int64, huge, tiny, the smallest, negative zero
+		1.0, 100000.0, 4e6, 1e15, 9007199254740992.0, 9223372036854775808.0, 1e19, 18446744073709551616.0, -3e20, 1e300, 5e-324, math.Copysign(0, -1), "", "a", "a'b", "a\"b", "a\\b", "a\nb", "a\tb", "a\rb", "a\fb", "a\bb", "a\x01b", "é", "a b", "a/b",
 		[]any{}, []any{int64(1)}, []any{int64(1), "a'b", 1.5, true, nil}}
 	for _, cv := range consts {
 		a := absOf(cv)
@@ -589,6 +635,13 @@ func genC14(tier string, n int, seed int64) {
 			}
 		}
 	}
+	// arithmetic that differs between int64 and float64: a float constant must come back as a float
+	for _, fc := range []float64{2.0, 4e6, 1e15, 9007199254740992.0, 4611686018427387904.0} {
+		emit(&c14case{K: "eq", Cell: fmt.Sprintf("const(flt %v) division", fc), Elem: absOf(int64(fc / 2)),
+			Ast: &AST{Op: "==", L: &AST{Op: "/", L: pth("@"), R: &AST{Op: "const", V: absOf(fc)}}, R: &AST{Op: "const", V: absOf(0.5)}}})
+	}
+	emit(&c14case{K: "eq", Cell: "const(flt 3e+18) overflow", Elem: absOf(int64(4)),
+		Ast: &AST{Op: ">", L: &AST{Op: "*", L: pth("@"), R: &AST{Op: "const", V: absOf(3e18)}}, R: &AST{Op: "const", V: absOf(1e19)}}})
 	emit(&c14case{K: "eq", Cell: "const(nothing)", Ast: &AST{Op: "==", L: pth("@", "zz"), R: &AST{Op: "const", V: &Abs{T: "nothing"}}}, Elem: null})
 	for _, p := range []string{"a", "^a.", "a/b", "a\\.b", "(?i)A"} {
 		regexp.MustCompile(p)
